@@ -150,6 +150,142 @@ theorem C14_recv_oversize (c : C) (fh : Nat) (data : List Nat) (parse : Nat → 
     simpa [processRecvPacket, hbig, v5DisconnectOrClose, psV5Disconnect, hc, hz, hE] using hp
 
 
+/-- **the receiver-side size monitor is a theorem of the model** (driver monitor
+    `VIOL sig=C14 oversize_delivered@<site>`): a `recv` call that completes a frame whose total
+    size exceeds the Maximum Packet Size we announced on this connection (`mpsRecv`: written by the
+    Maximum Packet Size property of the CONNECT / successful CONNACK we sent —
+    `C14_announced_by_connect` / `_connack` — and reset to "no limit" by `notify_closed`,
+    `C14_closed_resets_announced`) produces no `NotifyPacketReceived` at all.  Every
+    configuration, state, input and parser. -/
+theorem C14_oversize_not_delivered (cfg : Cfg) (s : St) (inp : List Nat)
+    (parse : Nat → Nat → List Nat → Except Nat Pkt) (pb' : Framing.PB) (fh : Nat) (data rest : List Nat)
+    (hf : Framing.feed s.pb inp = (pb', some (.complete fh data), rest))
+    (hbig : totalSize data.length > s.mpsRecv) :
+    ∀ p, Ev.recv p ∉ (step cfg s (.recv inp parse)).ev := by
+  intro p hm
+  have e : step cfg s (.recv inp parse) =
+      processRecvPacket { cfg := cfg, s := { s with pb := pb' } } fh data (fun v => parse v fh data) := by
+    simp only [step, recv, hf]
+  rw [e] at hm
+  have := (C14_recv_oversize { cfg := cfg, s := { s with pb := pb' } } fh data (fun v => parse v fh data) hbig).1 p hm
+  simp at this
+
+/-- in the monitor's own words: `deliveredAny` is false -/
+theorem C14_monitor_oversize_delivered_sound (cfg : Cfg) (s : St) (inp : List Nat)
+    (parse : Nat → Nat → List Nat → Except Nat Pkt) (pb' : Framing.PB) (fh : Nat) (data rest : List Nat)
+    (hf : Framing.feed s.pb inp = (pb', some (.complete fh data), rest))
+    (hbig : totalSize data.length > s.mpsRecv) :
+    ((step cfg s (.recv inp parse)).ev.any fun e => match e with | .recv _ => true | _ => false) = false := by
+  rw [Bool.eq_false_iff]
+  intro h
+  simp only [List.any_eq_true] at h
+  obtain ⟨e, he, hb⟩ := h
+  cases e with
+  | recv p => exact C14_oversize_not_delivered cfg s inp parse pb' fh data rest hf hbig p he
+  | _ => simp at hb
+
+theorem connectSendProp_mpsRecv (c : C) (id v) :
+    (connectSendProp c id v).s.mpsRecv = if id = pMPS then v else c.s.mpsRecv := by
+  unfold connectSendProp
+  (repeat' split) <;> simp_all [pTAM, pRM, pMPS, pSEI]
+
+theorem connackSendProp_mpsRecv (c : C) (id v) :
+    (connackSendProp c id v).s.mpsRecv = if id = pMPS then v else c.s.mpsRecv := by
+  unfold connackSendProp
+  (repeat' (first | split | (simp only []; split))) <;> simp_all [pTAM, pRM, pMPS, pSKA]
+
+theorem propsFold_mpsRecv {f : C → Nat → Nat → C}
+    (hf : ∀ c id v, (f c id v).s.mpsRecv = if id = pMPS then v else c.s.mpsRecv) (c : C) (l) :
+    (propsFold f c l).s.mpsRecv = mpsOf l c.s.mpsRecv := by
+  induction l generalizing c with
+  | nil => rfl
+  | cons x rest ih =>
+    obtain ⟨id, v⟩ := x
+    simp only [propsFold, mpsOf]
+    rw [ih, hf]
+
+/-- the value the monitor's ghost takes (`Mon.findProp p pMPS`) is the one the model stores when
+    the packet carries the property at most once (as every real packet does) -/
+theorem mpsOf_findProp {p : Pkt} {l d : Nat} (h : Mon.findProp p pMPS = some l)
+    (huniq : ∀ x ∈ p.props, x.1 = pMPS → x.2 = l) : mpsOf p.props d = l := by
+  have hmem : ∃ x ∈ p.props, x.1 = pMPS := by
+    unfold Mon.findProp at h
+    cases hf : p.props.find? (·.1 = pMPS) with
+    | none => simp [hf] at h
+    | some x => exact ⟨x, List.mem_of_find?_eq_some hf, by simpa using List.find?_some hf⟩
+  clear h
+  generalize p.props = ps at hmem huniq
+  induction ps generalizing d with
+  | nil => simp at hmem
+  | cons y rest ih =>
+    obtain ⟨i, v⟩ := y
+    simp only [mpsOf]
+    by_cases hr : ∃ x ∈ rest, x.1 = pMPS
+    · exact ih hr (fun x hx => huniq x (List.mem_cons_of_mem _ hx))
+    · have hi : i = pMPS := by
+        obtain ⟨x, hx, hx1⟩ := hmem
+        rcases List.mem_cons.1 hx with rfl | hx'
+        · exact hx1
+        · exact absurd ⟨x, hx', hx1⟩ hr
+      have hv : v = l := huniq (i, v) (by simp) hi
+      have hrest : ∀ d', mpsOf rest d' = d' := by
+        intro d'
+        clear ih huniq hmem
+        induction rest generalizing d' with
+        | nil => rfl
+        | cons z r ih2 =>
+          obtain ⟨j, w⟩ := z
+          have hj : j ≠ pMPS := fun e => hr ⟨(j, w), by simp, e⟩
+          simp only [mpsOf, hj, if_false]
+          exact ih2 (fun ⟨x, hx, hx1⟩ => hr ⟨x, List.mem_cons_of_mem _ hx, hx1⟩) _
+      rw [hrest, if_pos hi, hv]
+
+/-- the limit announced by a v5.0 CONNECT accepted for sending is what `mpsRecv` holds afterwards -/
+theorem C14_announced_by_connect (cfg : Cfg) (s : St) (p : Pkt) (hk : p.kind = .connect) (hv5 : p.ver = 5)
+    (hv : s.ver = 5) (hr : cfg.role ≠ .server) (hst : s.status = .disconnected)
+    (hsz : p.sz cfg.pw ≤ s.mpsSend) :
+    (step cfg s (.send p)).s.mpsRecv = mpsOf p.props s.mpsRecv := by
+  have hrole : roleMaySend cfg.role p = true := by cases h : cfg.role <;> simp_all [roleMaySend]
+  have hs : sizeOk { cfg := cfg, s := s } p = true := by simp [sizeOk]; omega
+  have h54 : ¬ (5 : Nat) = 4 := by decide
+  simp only [step, send, hv, hv5, processSend, hk, hrole, h54, psV5Connect, hs, hst]
+  simp only [ne_eq, not_true_eq_false, if_false, Bool.not_true, Bool.false_eq_true]
+  have hpp : ∀ c : C, (sendPostProcess c).s.mpsRecv = c.s.mpsRecv := by
+    intro c; rcases sendPostProcess_s_cases c with h | h <;> rw [h]
+  rw [hpp]
+  simp only [push_s]
+  rw [propsFold_mpsRecv connectSendProp_mpsRecv]
+  split <;> rfl
+
+theorem releaseIfUsed_mpsRecv (c : C) (id : Nat) : (releaseIfUsed c id).s.mpsRecv = c.s.mpsRecv := by
+  unfold releaseIfUsed releaseId
+  (repeat' (first | split | (simp only []; split))) <;> rfl
+theorem releaseAll_mpsRecv (l : List Nat) : ∀ c : C, (releaseAll c l).s.mpsRecv = c.s.mpsRecv := by
+  induction l with
+  | nil => intro c; rfl
+  | cons x rest ih => intro c; rw [releaseAll, ih, releaseIfUsed_mpsRecv]
+theorem cancelTimers_mpsRecv (c : C) : (cancelTimers c).s.mpsRecv = c.s.mpsRecv := by
+  cases h1 : c.s.sendSet <;> cases h2 : c.s.recvSet <;> cases h3 : c.s.respSet <;>
+    simp [cancelTimers, h1, h2, h3]
+
+/-- `notify_closed` forgets the announced limit: the monitor's ghost is reset as well -/
+theorem C14_closed_resets_announced (cfg : Cfg) (s : St) : (step cfg s .closed).s.mpsRecv = noLimit := by
+  show (notifyClosed _).s.mpsRecv = noLimit
+  unfold notifyClosed
+  simp only [cancelTimers_mpsRecv]
+  split <;> simp [releaseAll_mpsRecv]
+
+/-- the hypotheses of `C14_oversize_not_delivered`: we announced Maximum Packet Size 10, a 14-byte
+    PUBLISH frame arrives in one piece (and the announced value is the one `mpsRecv` holds) -/
+example :
+    let cfg : Cfg := ⟨.client, 2⟩
+    let connect : Pkt := { ver := 5, kind := .connect, size := 20, props := [(pMPS, 10)] }
+    let s := (step cfg (St.init cfg 5) (.send connect)).s
+    s.mpsRecv = 10 ∧ Mon.findProp connect pMPS = some 10 ∧
+    Framing.feed s.pb [0x30, 12, 0, 1, 116, 0, 1, 2, 3, 4, 5, 6, 7, 8] =
+      ({}, some (.complete 0x30 [0, 1, 116, 0, 1, 2, 3, 4, 5, 6, 7, 8]), []) ∧
+    totalSize [0, 1, 116, 0, 1, 2, 3, 4, 5, 6, 7, 8].length > s.mpsRecv := by decide
+
 /-! ## (2) oversize stored packets -/
 
 def fits (c : C) (x : Nat × Pkt) : Bool := decide (x.2.sz c.cfg.pw ≤ c.s.mpsSend)
@@ -174,7 +310,7 @@ theorem sendStoredLoop_store (l) (c : C) :
       congr 1
       apply List.filter_congr
       intro x _
-      by_cases h1 : c.s.sendMax.isSome = true <;> by_cases h2 : c.s.sendCount ≥ 65535 <;>
+      by_cases h1 : c.s.sendMax.isSome = true <;> by_cases h2 : c.s.sendCount ≥ 4294967295 <;>
         simp [fits, h1, h2]
 
 /-- C14 (2a): after `send_stored` the store is exactly the entries that fit the peer's limit, in
@@ -207,7 +343,7 @@ theorem sendStoredLoop_mono (l) (c : C) (e : Ev) (he : e ∈ c.ev) : e ∈ (send
     · refine ih _ ?_
       unfold releaseIfUsed; split <;> simp [he]
     · refine ih _ ?_
-      by_cases h1 : c.s.sendMax.isSome = true <;> by_cases h2 : c.s.sendCount ≥ 65535 <;> simp [h1, h2, he]
+      by_cases h1 : c.s.sendMax.isSome = true <;> by_cases h2 : c.s.sendCount ≥ 4294967295 <;> simp [h1, h2, he]
 
 /-- C14 (2c), partial: the oversize entry at the head of the store is dropped with its
     identifier released when in use (`NotifyPacketIdReleased` is emitted).  For an entry further
